@@ -14,6 +14,8 @@ import Hpv.Resnik
 import Hpv.Sorting
 import Hpv.Ic
 import Hpv.Validate
+import Hpv.Io
+import Hpv.Obo
 open Lean
 
 namespace Drv
@@ -352,6 +354,128 @@ def validateOp (j : Json) : Except String Json := do
         toJson (r.ids.map cpsToStr)]))]
 end C11
 
+/-! ### C16 -/
+section C16
+open Hpv.Io
+
+def kindOf : String → Except String Kind
+  | "path" => pure .path | "gzPath" => pure .gzPath | "textFile" => pure .textFile | "binaryFile" => pure .binaryFile
+  | "stringIO" => pure .stringIO | "bytesIO" => pure .bytesIO | "gzipText" => pure .gzipText | "gzipBinary" => pure .gzipBinary
+  | "other" => pure .other
+  | s => throw s!"unknown kind {s}"
+
+def outcomeName : Outcome → String
+  | .openPath => "openPath" | .openGzPath => "openGzPath" | .openUrl => "openUrl" | .wrapBinary => "wrapBinary"
+  | .passText => "passText" | .reject => "reject"
+
+def ioDispatch (j : Json) : Except String Json := do
+  let k ← kindOf (← j.getObjValAs? String "kind")
+  let fj ← j.getObjVal? "facts"
+  let b (n : String) : Except String Bool := fj.getObjValAs? Bool n
+  let f : Facts := ⟨← b "isStr", ← b "typingBinaryIO", ← b "bufferedIOBase", ← b "rawIOBase", ← b "typingTextIO",
+    ← b "textIOBase", ← b "endsWithGz", ← b "looksLikeUrl"⟩
+  return Json.mkObj [("fits", FactsFit k f), ("read", outcomeName (dispatchRead f)), ("write", outcomeName (dispatchWrite f)),
+    ("expected", outcomeName (expectedRead k))]
+end C16
+
+/-! ### C05 -/
+section C05
+open Hpv.Obo
+
+def optStr (j : Json) (k : String) : Option String :=
+  match j.getObjVal? k with
+  | .ok (.str s) => some s
+  | _ => none
+
+def strList (j : Json) (k : String) : List String :=
+  match j.getObjVal? k with
+  | .ok (.arr a) => a.toList.filterMap (fun x => match x with | .str s => some s | _ => none)
+  | _ => []
+
+def objList (j : Json) (k : String) : List Json :=
+  match j.getObjVal? k with
+  | .ok (.arr a) => a.toList
+  | _ => []
+
+def bpvOf (j : Json) : Bpv := ⟨optStr j "pred", optStr j "val"⟩
+
+def metaOf (j : Json) : MetaJ :=
+  { definition := match j.getObjVal? "definition" with
+      | .ok d => some ⟨optStr d "val", strList d "xrefs"⟩
+      | .error _ => none
+    comments := strList j "comments"
+    synonyms := (objList j "synonyms").map fun x => ⟨optStr x "pred", optStr x "val", optStr x "synonymType", strList x "xrefs"⟩
+    xrefs := (objList j "xrefs").map fun x => optStr x "val"
+    bpvs := (objList j "basicPropertyValues").map bpvOf
+    deprecated := match j.getObjVal? "deprecated" with
+      | .ok (.bool b) => some b
+      | _ => none }
+
+def nodeOf (j : Json) : Except String NodeJ := do
+  let id ← j.getObjValAs? String "id"
+  return { id := id, lbl := optStr j "lbl", type := optStr j "type",
+           mta := match j.getObjVal? "meta" with | .ok m => some (metaOf m) | .error _ => none }
+
+def edgeJOf (j : Json) : Except String EdgeJ := do
+  return ⟨← j.getObjValAs? String "sub", ← j.getObjValAs? String "pred", ← j.getObjValAs? String "obj"⟩
+
+def docOf (j : Json) : Except String Doc := do
+  let nodes ← (objList j "nodes").mapM nodeOf
+  let edges ← (objList j "edges").mapM edgeJOf
+  let m : DocMeta := match j.getObjVal? "meta" with
+    | .ok mj => { version := optStr mj "version",
+                  bpvs := match mj.getObjVal? "basicPropertyValues" with
+                    | .ok (.arr a) => some (a.toList.map bpvOf)
+                    | _ => none }
+    | .error _ => {}
+  return ⟨nodes, edges, m⟩
+
+def catName : SynCategory → String
+  | .exact => "EXACT" | .related => "RELATED" | .broad => "BROAD" | .narrow => "NARROW"
+
+def typeName : SynType → String
+  | .layperson => "LAYPERSON_TERM" | .abbreviation => "ABBREVIATION" | .ukSpelling => "UK_SPELLING"
+  | .obsoleteSynonym => "OBSOLETE_SYNONYM" | .pluralForm => "PLURAL_FORM" | .allelicRequirement => "ALLELIC_REQUIREMENT"
+
+def termJson (t : Hpv.Obo.Term) : Json :=
+  Json.mkObj [("id", curieValue t.id), ("name", t.name), ("alts", toJson (t.alts.map curieValue)), ("obsolete", t.obsolete),
+    ("definition", match t.definition with | some d => Json.arr #[d.1, toJson d.2] | none => Json.null),
+    ("comment", toJson t.comment),
+    ("synonyms", match t.synonyms with
+      | some l => toJson (l.map fun s => Json.arr #[toJson s.name, toJson (s.category.map catName), toJson (s.synType.map typeName), toJson s.xrefs])
+      | none => Json.null),
+    ("xrefs", match t.xrefs with | some l => toJson (l.map curieValue) | none => Json.null)]
+
+def oboLoad (j : Json) : Except String Json := do
+  let doc ← docOf (← j.getObjVal? "doc")
+  let L : Loader := if (← j.getObjValAs? String "loader") == "full" then .full else .minimal
+  let P ← j.getObjValAs? (List String) "prefixes"
+  match load L P doc with
+  | .error e => return Json.mkObj [("err", errName e)]
+  | .ok l =>
+    let edges := l.edges.map fun e => (curieValue e.1, curieValue e.2)
+    let keyEdges := edges.filterMap fun e => match keyOfStr e.1, keyOfStr e.2 with
+      | some a, some b => some (a, b)
+      | _, _ => none
+    let graph : Json := match Hpv.GM.build keyOrd owlThing .indexed keyEdges with
+      | .error e => Json.mkObj [("build_err", errName e)]
+      | .ok g => Json.mkObj [("nodes", toJson (g.nodes.map keyStr)),
+          ("root", match g.root with | .ok r => Json.str (keyStr r) | .error _ => Json.null),
+          ("parents", toJson (g.nodes.map fun n => Json.arr #[keyStr n,
+              match g.query keyOrd .parents (some n) false with | .ok ps => toJson (ps.map keyStr) | .error _ => Json.null]))]
+    return Json.mkObj [("version", toJson l.version), ("terms", toJson (l.allTerms.map termJson)),
+      ("edges", toJson (edges.map fun e => Json.arr #[e.1, e.2])), ("graph", graph)]
+
+def oboRecognise (j : Json) : Except String Json := do
+  let ss ← j.getObjValAs? (List String) "ss"
+  let which ← j.getObjValAs? String "which"
+  match which with
+  | "purl" => return toJson (ss.map purlCurie)
+  | "date" => return toJson (ss.map dateOf)
+  | "syntype" => return toJson (ss.map fun s => (parseSynType (some s)).map typeName)
+  | _ => throw s!"unknown recogniser {which}"
+end C05
+
 def handle (j : Json) : Except String Json := do
   let op ← j.getObjValAs? String "op"
   match op with
@@ -362,6 +486,9 @@ def handle (j : Json) : Except String Json := do
   | "graph.batch" => graphBatch j
   | "onto.lookup" => ontoLookup j
   | "sim.hist" => simHist j
+  | "obo.load" => oboLoad j
+  | "obo.recognise" => oboRecognise j
+  | "io.dispatch" => ioDispatch j
   | "validate" => validateOp j
   | "ic.counts" => icCounts j
   | "argsort.replay" => argsortReplay j
